@@ -417,7 +417,7 @@ Proof.
   pose proof (inv_ps st HI) as HP. pose proof (PsOk_pos _ HP) as Hps. assert (Hps0 : 0 < psize st) by lia.
   pose proof (inv_fs st HI) as [Hf1 Hf2]. pose proof (inv_file st HI) as Hfl. pose proof (inv_mo st HI) as [Hm1 [Hm2 Hm3]].
   pose proof (inv_slots st HI) as HS. pose proof (SlotsInv_lens _ _ _ HS) as HL. pose proof LIM_val as EL.
-  unfold truncate_lw in E. rewrite uw_small in E by lia. rewrite roundup_ps in E by (auto; lia). cbv zeta in E.
+  unfold truncate_lw in E. destruct (Z.ltb_spec size 0); [lia |]. rewrite uw_small in E by lia. rewrite roundup_ps in E by (auto; lia). cbv zeta in E.
   set (n := rup size (psize st)) in *.
   assert (Hn : 0 <= n <= LIM) by (split; [apply rup_nonneg; lia | apply rup_le_aligned; try lia; apply LIM_mod; auto]).
   assert (Hnm : n mod psize st = 0) by (apply rup_mod; lia).
@@ -573,7 +573,7 @@ Proof.
   assert (Hfid : forall bytes p, zlen bytes = fsize st -> mkFlat bytes (maxoff st) p = mkFlat (ftrunc bytes (fsize st)) (maxoff st) p)
     by (intros bytes p Hb; rewrite <- Hb, ftrunc_id; reflexivity).
   assert (Hpid : Full st -> slots st = pinit (psize st) (fsize st) (slots st)) by (intros HF; symmetry; apply pinit_full_id; exact HF).
-  unfold ensure_size_lw in E. rewrite uw_small in E by lia.
+  unfold ensure_size_lw in E. destruct (Z.ltb_spec sz 0); [lia |]. rewrite uw_small in E by lia.
   destruct (Z.geb_spec (fsize st) sz) as [Hge | Hlt].
   { inversion E; subst rc st'. clear E.
     split; [exact HI |]. split; [exact HB |]. do 2 (split; [reflexivity |]).
